@@ -399,6 +399,10 @@ func (o *AlonzoTransactionOutput) UnmarshalCBOR(cborData []byte) error {
 }
 
 func (o *AlonzoTransactionOutput) MarshalCBOR() ([]byte, error) {
+	// Return stored CBOR if available
+	if o.Cbor() != nil {
+		return o.Cbor(), nil
+	}
 	if o.legacyOutput {
 		tmpOutput := mary.MaryTransactionOutput{
 			OutputAddress: o.OutputAddress,
@@ -611,6 +615,10 @@ func (r *AlonzoRedeemers) UnmarshalCBOR(cborData []byte) error {
 }
 
 func (r AlonzoRedeemers) MarshalCBOR() ([]byte, error) {
+	// Return stored CBOR if available
+	if r.Cbor() != nil {
+		return r.Cbor(), nil
+	}
 	return cbor.Encode(r.Redeemers)
 }
 
@@ -684,6 +692,10 @@ func (p *PlutusDataList) UnmarshalCBOR(cborData []byte) error {
 }
 
 func (p PlutusDataList) MarshalCBOR() ([]byte, error) {
+	// Return stored CBOR if available
+	if p.Cbor() != nil {
+		return p.Cbor(), nil
+	}
 	return cbor.Encode(p.Items)
 }
 
